@@ -67,7 +67,7 @@ def generate_from_csv(args):
     trips_total = 0
 
     # set vehicle type if present in vehicle_types.json
-    for v_type in {item['vehicle_type'] for item in input}:
+    for v_type in sorted({item['vehicle_type'] for item in input}):
         try:
             vehicle_types.update({v_type: args.predefined_vehicle_types[v_type]})
         except KeyError:
@@ -93,7 +93,7 @@ def generate_from_csv(args):
         input = [dict(item, **{'connect_cs': 1}) for item in input]
 
     # GENERATE VEHICLE EVENTS: iterate over input file
-    for v_id in {item['vehicle_id'] for item in input}:
+    for v_id in sorted({item['vehicle_id'] for item in input}):
         v_type = [d for d in input if d['vehicle_id'] == v_id][0]["vehicle_type"]
         cs_id = "CS_" + v_id
 
